@@ -194,10 +194,38 @@ Definition M_get_sub (k : key) (data : list N) : outcome subtable :=
   then Err                       (* notImplemented *)
   else Panic.                    (* decoders[format] is nil *)
 
+(* decodeFormat0 when a code2rune function is supplied (Macintosh key), as
+   repaired (fixes/C09-format0-mac-code2rune.diff): a *Format0 is indexed by the
+   rune itself, so the translated mapping is returned as a Format4
+     for c, g := range data { if g != 0 { res[uint16(code2rune(c))] = glyph.ID(g) } } *)
+Fixpoint dec0_mac_loop (c : N) (d : list N) (acc : amap) : amap :=
+  match d with
+  | [] => acc
+  | g :: r => dec0_mac_loop (c + 1) r (if g =? 0 then acc else put (macrune c mod u16) g acc)
+  end.
+
+Definition M_decode0_mac (data : list N) : outcome amap :=
+  if N.of_nat (length data) <? 6 then Panic else
+  let d := skipn 6 data in
+  if negb (N.of_nat (length d) =? f0_dataLen) then Err else
+  Ok (frev (dec0_mac_loop 0 d [])).
+
+(* Table.Get after the key was found, as it is now.  [M_get_sub] above is the
+   dispatch for every key except (Macintosh, format 0) - part C10B builds on it
+   with its raw key (3,1) - and shows the code as found for that one
+   combination: the byte table handed out untranslated (genuine defect
+   c09-format0-mac-codes-not-translated). *)
+Definition M_get_sub2 (k : key) (data : list N) : outcome subtable :=
+  let '(p, e, _) := k in
+  if (p =? 1) && (e =? 0) then
+    format <- get16 data 0 ;;
+    if format =? 0 then omap SubMap (M_decode0_mac data) else M_get_sub k data
+  else M_get_sub k data.
+
 Definition M_get (t : list (key * list N)) (k : key) : outcome subtable :=
   match tget k t with
   | None => Err
-  | Some d => M_get_sub k d
+  | Some d => M_get_sub2 k d
   end.
 
 (* GetBest: the first candidate whose Get succeeds; the index of the candidate *)
